@@ -38,6 +38,7 @@ type listRec struct {
 	Enter   int64    `json:"enter"`
 	Exit    int64    `json:"exit"`
 	Conc    int32    `json:"concurrent_fills_of_group_at_entry"`
+	WallUs  int64    `json:"wall_us_since_case_start"` // diagnostic only; no verdict reads it
 }
 
 // checkRec is one direct answer to a membership question.
@@ -74,11 +75,12 @@ type dir struct {
 	maxConc   map[string]int32
 	inflight  int
 	trace     []string
+	t0        time.Time
 }
 
 func newDir() *dir {
 	return &dir{mem: map[string]map[string]bool{}, script: map[string][]bool{}, gates: map[string]*gate{},
-		conc: map[string]int32{}, maxConc: map[string]int32{}}
+		conc: map[string]int32{}, maxConc: map[string]int32{}, t0: time.Now()}
 }
 
 func (d *dir) stamp() int64 { return atomic.AddInt64(&d.clk, 1) }
@@ -252,6 +254,7 @@ func (d *dir) list(g string) ([]string, error) {
 	}
 	gt := d.gates[g]
 	rec.Enter = d.stamp()
+	rec.WallUs = int64(time.Since(d.t0) / time.Microsecond)
 	d.mu.Unlock()
 
 	if gt != nil {
